@@ -164,6 +164,8 @@ impl<'a> StateMachine<'a> {
                 }
             }
 
+            self.flush_submodule_short_minus_commit()?;
+
             // A merge conflict region which is never closed ends with its hunk: show the
             // lines collected so far before anything that is not a hunk line.
             if matches!(self.state, State::MergeConflict(_, _))
@@ -199,6 +201,8 @@ impl<'a> StateMachine<'a> {
         #[cfg(dandavison_delta_verif)]
         crate::verif_hooks::boundary(self);
 
+        self.line.clear();
+        self.flush_submodule_short_minus_commit()?;
         self.end_unclosed_merge_conflict()?;
         self.handle_pending_line_with_diff_name()?;
         self.painter.paint_buffered_minus_and_plus_lines();
